@@ -31,18 +31,18 @@ end
     "%g" and the arithmetic of parse_numeric — checked on every generated float by the correspondence run — and
     fails for inf, nan (their text does not start a number) and for subnormal numbers):
     the saved text is a non-empty run of ASCII bytes that starts like a number and contains no delimiter, and
-    parse_numeric reads it back — whatever delimiter or end of text follows — as a float with the same "%g" text. -/
+    parse_numeric reads it back — whatever delimiter or end of text follows — as a float with the same saved text.
+    Since the fixes K2/K4 this covers the infinities, NaN and the subnormal numbers as well. -/
 structure FloatOK (F : FloatOps α) (x : α) : Prop where
   start : ∃ c s, saveReal F x = c :: s ∧ numStart c = true
   chars : ∀ b ∈ saveReal F x, b ≠ 0 ∧ b ≠ 44 ∧ b ≠ 58 ∧ b < 128
   parse : ∀ c s, saveReal F x = c :: s → ∀ tail : List Byte,
     (tail = [] ∨ ∃ d r, tail = d :: r ∧ (d = 44 ∨ d = 58)) →
-    ∃ y, parseNumeric F c (s ++ tail) = some (.real y, tail) ∧ F.print y = F.print x
+    ∃ y, parseNumeric F c (s ++ tail) = some (.real y, tail) ∧ saveReal F y = saveReal F x
 
-/-- bytes a string may hold for the full round trip: no NUL (C strings), no CR (known finding K1: CR comes back
-    as LF), ASCII (known finding K3 concerns bytes that are not valid multibyte characters; valid UTF-8 text is
-    covered by the correspondence run only) -/
-def StrOK (s : List Byte) : Prop := ∀ b ∈ s, b ≠ 0 ∧ b ≠ 13 ∧ b < 128
+/-- bytes a string may hold: everything but NUL (LPC strings are C strings).  CR and bytes that are no valid
+    multibyte character round-trip since the fixes K1 / K3. -/
+def strOK (s : List Byte) : Bool := s.all (· != 0)
 
 /-- identity of a mapping key as far as restore_mapping's duplicate test is concerned (`none`: a container,
     never equal to another key).  An object reference used as key is written as nothing and read back as 0. -/
@@ -61,31 +61,52 @@ def isReal : Value α → Bool
   | _ => false
 
 mutual
-/-- the values of the round-trip statement -/
-inductive Savable (F : FloatOps α) : Value α → Prop
-  | int (n : Int) : -(2 : Int) ^ 63 ≤ n → n < (2 : Int) ^ 63 → Savable F (.int n)
-  | real (x : α) : FloatOK F x → Savable F (.real x)
-  | str (s : List Byte) : StrOK s → Savable F (.str s)
-  | obj : Savable F .obj
-  /-- an LPC array never has more than MaxArraySize elements (allocate_array refuses; so does the restore) -/
-  | arr (xs : Vals α) : SavableVals F xs → xs.length ≤ maxArray → Savable F (.arr xs)
-  | cls (xs : Vals α) : SavableVals F xs → Savable F (.cls xs)
-  /-- keys: no floats (float keys that print alike collapse: known finding K5), integer / string keys distinct -/
-  | map (ps : Pairs α) : SavablePairs F ps → (∀ k ∈ ps.keys, isReal k = false) →
-      ((ps.keys.filterMap keyTag).Nodup) → Savable F (.map ps)
-inductive SavableVals (F : FloatOps α) : Vals α → Prop
-  | nil : SavableVals F .nil
-  | cons (v : Value α) (r : Vals α) : Savable F v → SavableVals F r → SavableVals F (.cons v r)
-inductive SavablePairs (F : FloatOps α) : Pairs α → Prop
-  | nil : SavablePairs F .nil
-  | cons (k v : Value α) (r : Pairs α) : Savable F k → Savable F v → SavablePairs F r → SavablePairs F (.cons k v r)
+/-- **The domain of the round-trip theorem** — a decidable check on the value alone:
+    * integers are 64-bit,
+    * strings contain no NUL byte (any other byte is allowed),
+    * an array has at most MaxArraySize elements (allocate_array refuses more, on both sides),
+    * the keys of a mapping are not floats (two float keys that print alike collapse: open finding K5) and its
+      integer / string / object keys are pairwise different as restore_mapping sees them (`keyTag`; true of every
+      real mapping); container keys are unrestricted,
+    * no restriction on nesting depth, classes, empty containers, object references (they come back as 0).
+    Floats carry no restriction here: what is needed of them is the contract `FloatsOK` of the float parameter. -/
+def savable : Value α → Bool
+  | .int n => decide (-(2 : Int) ^ 63 ≤ n) && decide (n < (2 : Int) ^ 63)
+  | .real _ => true
+  | .str s => strOK s
+  | .obj => true
+  | .arr xs => decide (xs.length ≤ maxArray) && savableVals xs
+  | .cls xs => savableVals xs
+  | .map ps => savablePairs ps && ps.keys.all (fun k => !isReal k) && decide ((ps.keys.filterMap keyTag).Nodup)
+def savableVals : Vals α → Bool
+  | .nil => true
+  | .cons v r => savable v && savableVals r
+def savablePairs : Pairs α → Bool
+  | .nil => true
+  | .cons k v r => savable k && savable v && savablePairs r
 end
 
 mutual
-/-- equality of values, floats compared by their "%g" text (the printed precision) -/
+/-- every float inside the value satisfies the float contract `FloatOK` -/
+def FloatsOK (F : FloatOps α) : Value α → Prop
+  | .real x => FloatOK F x
+  | .arr xs => FloatsOKVals F xs
+  | .cls xs => FloatsOKVals F xs
+  | .map ps => FloatsOKPairs F ps
+  | _ => True
+def FloatsOKVals (F : FloatOps α) : Vals α → Prop
+  | .nil => True
+  | .cons v r => FloatsOK F v ∧ FloatsOKVals F r
+def FloatsOKPairs (F : FloatOps α) : Pairs α → Prop
+  | .nil => True
+  | .cons k v r => FloatsOK F k ∧ FloatsOK F v ∧ FloatsOKPairs F r
+end
+
+mutual
+/-- equality of values, floats compared by their saved text ("%g": the printed precision; every NaN alike) -/
 inductive Equiv (F : FloatOps α) : Value α → Value α → Prop
   | int (n : Int) : Equiv F (.int n) (.int n)
-  | real (x y : α) : F.print x = F.print y → Equiv F (.real x) (.real y)
+  | real (x y : α) : saveReal F x = saveReal F y → Equiv F (.real x) (.real y)
   | str (s : List Byte) : Equiv F (.str s) (.str s)
   | arr (xs ys : Vals α) : EquivVals F xs ys → Equiv F (.arr xs) (.arr ys)
   | cls (xs ys : Vals α) : EquivVals F xs ys → Equiv F (.cls xs) (.cls ys)
